@@ -78,6 +78,10 @@ func (p *publisher) publishUpdates(reqs requests) {
 	batchedUpdates := make(map[uint64]*pb.KVList)
 	for _, req := range reqs {
 		for _, e := range req.Entries {
+			if e.moved {
+				// Rewritten by value log GC: an old version, already published when it was committed.
+				continue
+			}
 			// Match on the user key: e.Key carries the 8-byte timestamp suffix, which must not
 			// take part in prefix matching.
 			ids := p.indexer.Get(y.ParseKey(e.Key))
